@@ -64,6 +64,7 @@ inductive Ev where
   | dropped (r : Rec)
   | allocFail
   | lostMark (n : Nat)
+  | lostReport (n : Nat)    -- LOST message at the end of the thread (no buffer left to carry a marker)
   deriving DecidableEq, Repr
 
 def survivors : List Ev → List Item
@@ -105,7 +106,12 @@ inductive Msg where
 
 structure Cfg where
   maxsize : Nat := 48          -- shmem_bufsize - sizeof(struct mcount_shmem_buffer)
-  fixed : Bool := true         -- false: record_ret_stack as it is (two size updates, finding F12)
+  fixed : Bool := true         -- false: record_ret_stack as it was (two size updates, finding F12)
+  countFix : Bool := true      -- false: the record whose allocation fails is counted twice (get_new_shmem_buffer
+                               -- and get_shmem_buffer both `losts++`), and the EXIT dropped after a failed own
+                               -- ENTRY is not counted at all (finding F13)
+  tailFix : Bool := true       -- false: shmem_finish forgets `losts`: records dropped at the end of a thread are
+                               -- never reported (finding F14)
 
 structure State where
   prod : Tid → Prod := fun _ => {}
@@ -116,6 +122,7 @@ structure State where
   bufDone : Bool := false          -- buf_done
   file : Tid → List Item := fun _ => []
   lostCount : Nat := 0             -- shmem_lost_count
+  lostLog : List (Tid × Nat) := [] -- ghost: the LOST messages read so far (whose thread, count)
 
 def State.init (nw : Nat) : State := { pool := { writers := List.replicate nw {} } }
 
@@ -128,8 +135,7 @@ inductive Action where
   | pPick (t : Tid) (ok : Bool)
   | pStart (t : Tid)
   | pMark (t : Tid)
-  | pLostAdd (t : Tid) (n : Nat)
-  | pDrop (t : Tid) (r : Rec)
+  | pAbandon (t : Tid) (rs : List Rec) (counted : Bool)
   | pFinish (t : Tid)
   | pFinishTrigger (t : Tid)
   | kill (t : Tid)
@@ -220,6 +226,29 @@ def msgOf (t : Tid) : Msg → Bool
   | .recEnd t' _ => t' = t
   | _ => false
 
+/-- mtd_dtor → shmem_finish: REC_END for the current buffer, `done`, `curr = -1` -/
+def finishCore (s : State) (t : Tid) : Option State :=
+  let p := s.prod t
+  if p.started && p.alive && !p.done && p.pc == .idle then
+    let sendsEnd := match p.curr with
+      | some c => (match p.bufs[c]? with | some b => b.recording | none => false)
+      | none => false
+    let p' := { p with done := true, curr := none,
+                       opn := if sendsEnd && !s.pipeClosed then none else p.opn }
+    match p.curr with
+    | some c => if sendsEnd then some ((s.setProd t p').send (.recEnd t c)) else some (s.setProd t p')
+    | none => some (s.setProd t p')
+  else none
+
+/-- repaired shmem_finish: records dropped since the last buffer switch are reported before the thread is gone
+    (there is no later buffer to carry a LOST record) -/
+def reportTail (cfg : Cfg) (t : Tid) (s : State) : State :=
+  let p := s.prod t
+  if cfg.tailFix && decide (p.losts > 0) && !s.pipeClosed then
+    (s.setProd t { p with losts := 0, log := p.log ++ [.lostReport p.losts],
+                          lostMsgs := p.lostMsgs ++ [p.losts] }).send (.lost t p.losts)
+  else s
+
 def step (cfg : Cfg) (s : State) : Action → Option State
   | .pPrepare t =>
     let p := s.prod t
@@ -274,7 +303,7 @@ def step (cfg : Cfg) (s : State) : Action → Option State
           let bufs := p.bufs ++ [{ recording := true }]
           some (s.setProd t { p with bufs := shrink bufs idx, curr := some idx, opn := some idx, pc := .picked r })
         else
-          some (s.setProd t { p with losts := p.losts + 2, curr := none, pc := .idle,
+          some (s.setProd t { p with losts := p.losts + (if cfg.countFix then 1 else 2), curr := none, pc := .idle,
                                      log := p.log ++ [.allocFail, .dropped r] })
     | _ => none
   | .pStart t =>
@@ -295,28 +324,18 @@ def step (cfg : Cfg) (s : State) : Action → Option State
                                     lostMsgs := p.lostMsgs ++ [p.losts] }).send (.lost t p.losts))
       else some (s.setProd t { p with pc := .wrote r })
     | _, _ => none
-  | .pLostAdd t n =>
+  | .pAbandon t rs counted =>
+    -- record_trace_data gives up the rest of its batch after a failed record: `losts += count - 1` when a
+    -- parent's ENTRY failed (`counted`), nothing when the call's own ENTRY failed (as coded)
     let p := s.prod t
     if s.canEmit t && p.pc == .idle && p.curr.isNone && p.losts > 0 then
-      some (s.setProd t { p with losts := p.losts + n })
-    else none
-  | .pDrop t r =>
-    let p := s.prod t
-    if s.canEmit t && p.pc == .idle && p.curr.isNone && p.losts > 0 then
-      some (s.setProd t { p with log := p.log ++ [.dropped r] })
+      some (s.setProd t { p with losts := p.losts + (if counted || cfg.countFix then rs.length else 0),
+                                 log := p.log ++ rs.map .dropped })
     else none
   | .pFinish t =>
-    let p := s.prod t
-    if p.started && p.alive && !p.done && p.pc == .idle then
-      let sendsEnd := match p.curr with
-        | some c => (match p.bufs[c]? with | some b => b.recording | none => false)
-        | none => false
-      let p' := { p with done := true, curr := none,
-                         opn := if sendsEnd && !s.pipeClosed then none else p.opn }
-      match p.curr with
-      | some c => if sendsEnd then some ((s.setProd t p').send (.recEnd t c)) else some (s.setProd t p')
-      | none => some (s.setProd t p')
-    else none
+    match finishCore s t with
+    | some s1 => some (reportTail cfg t s1)
+    | none => none
   | .pFinishTrigger t =>
     let p := s.prod t
     if s.canEmit t && p.pc == .idle then some { s with pipe := s.pipe ++ [.finish], pipeClosed := true }
@@ -328,7 +347,7 @@ def step (cfg : Cfg) (s : State) : Action → Option State
     | .recStart t i :: rest => some { s with pipe := rest, shmemList := s.shmemList ++ [⟨t, i⟩] }
     | .recEnd t i :: rest =>
       some (recordMmap { s with pipe := rest, shmemList := s.shmemList.erase ⟨t, i⟩ } ⟨t, i⟩)
-    | .lost _ n :: rest => some { s with pipe := rest, lostCount := s.lostCount + n }
+    | .lost t n :: rest => some { s with pipe := rest, lostCount := s.lostCount + n, lostLog := s.lostLog ++ [(t, n)] }
     | .finish :: rest => some { s with pipe := rest }
   | .rFlush t i =>
     let p := s.prod t
@@ -397,22 +416,18 @@ def emit (cfg : Cfg) (s : State) (t : Tid) (r : Rec) (ok : Bool) : Option (State
           | none => none
           | some s4 => bump s4
 
-/-- record_trace_data: a batch of records; `extra` is what `losts += count - 1` adds when
-    this record cannot be stored (`none`: the caller ignores the failure and goes on, as
-    record_event's callers do).  After a failure that aborts the batch the remaining
-    records are dropped. -/
-def emitBatch (cfg : Cfg) (s : State) (t : Tid) : List (Rec × Option Nat × Bool) → Option State
+/-- record_trace_data: a batch of records.  `onFail` says what happens when this record cannot be stored:
+    `none` — the caller ignores it and goes on (record_event's callers); `some counted` — the rest of the batch
+    is abandoned, `counted` = the code adds `count - 1` to `losts` (a parent's ENTRY) or not (the own ENTRY). -/
+def emitBatch (cfg : Cfg) (s : State) (t : Tid) : List (Rec × Option Bool × Bool) → Option State
   | [] => some s
-  | (r, extra, ok) :: rest =>
+  | (r, onFail, ok) :: rest =>
     match emit cfg s t r ok with
     | none => none
     | some (s1, true) => emitBatch cfg s1 t rest
     | some (s1, false) =>
-      match extra with
+      match onFail with
       | none => emitBatch cfg s1 t rest
-      | some n =>
-        match step cfg s1 (.pLostAdd t n) with
-        | none => none
-        | some s2 => rest.foldl (fun acc x => acc.bind fun st => step cfg st (.pDrop t x.1)) (some s2)
+      | some counted => step cfg s1 (.pAbandon t (rest.map (·.1)) counted)
 
 end Uft.Shmem
